@@ -376,6 +376,12 @@ where
         let actions_sv = SparseVec::<usize>::from(&actions, 0, usize::from(grm.tokens_len()));
         let gotos_sv = SparseVec::<usize>::from(&gotos, 0, usize::from(grm.rules_len()));
 
+        // Edges are stored in hash maps whose iteration order differs from run to run: put the
+        // conflicts we found into a fixed order so that identical grammars give identical tables
+        // (and identical serialised tables in generated code).
+        shift_reduce.sort_unstable_by_key(|&(tidx, pidx, stidx)| (stidx, tidx, pidx));
+        reduce_reduce
+            .sort_unstable_by_key(|&(tidx, pidx, r_pidx, stidx)| (stidx, tidx, pidx, r_pidx));
         let conflicts = if !(reduce_reduce.is_empty() && shift_reduce.is_empty()) {
             Some(Conflicts {
                 reduce_reduce,
